@@ -21,11 +21,15 @@ import (
 // RepeatCase: the same operation sent Repeats times to the same gateway and to Fresh freshly built gateways.
 type RepeatCase struct {
 	ExecCase
-	Repeats    int     `json:"repeats"`
-	Fresh      int     `json:"fresh"`
-	DelaysUS   [][]int `json:"delays_us"` // per repetition, per service: delay before the fake answers
-	GoMaxProcs int     `json:"gomaxprocs"`
+	Repeats  int     `json:"repeats"`
+	Fresh    int     `json:"fresh"`
+	DelaysUS [][]int `json:"delays_us"` // per repetition, per service: delay before the fake answers
+	// Batch: if non-empty the request is this JSON array (the case's own operation first) instead of the single operation
+	Batch      []gwx.GQLRequest `json:"batch,omitempty"`
+	GoMaxProcs int              `json:"gomaxprocs"`
 }
+
+func strPtr(s string) *string { return &s }
 
 func canonical(v interface{}) string {
 	b, _ := json.Marshal(refexec.Normalize(v)) // encoding/json sorts map keys
@@ -59,6 +63,30 @@ func observe(c *RepeatCase, gwBuild func() (*fake.Net, func(gwx.GQLRequest) *gwx
 	}
 	if resp.Panic != "" {
 		return nil, ev.Failf("panic:"+gwx.PanicSite(resp.Panic), "%s", trunc(resp.Panic, 800))
+	}
+	if len(c.Batch) > 0 {
+		// batch mode: the whole array is the observation (slot by slot: data, error multiset)
+		var raw []json.RawMessage
+		if err := json.Unmarshal(resp.Body, &raw); err != nil {
+			return nil, ev.Failf("envelope", "batch response is not an array: %s", trunc(string(resp.Body), 200))
+		}
+		o := &runObs{}
+		var slots []string
+		for _, r := range raw {
+			d, derr := gwx.Decode(r)
+			if derr != nil || string(r) == "null" {
+				slots = append(slots, "<"+string(r)+">")
+				continue
+			}
+			dk, ek := resultKey(d)
+			slots = append(slots, dk+"|"+strings.Join(ek, ";"))
+		}
+		o.data = strings.Join(slots, "\n")
+		for _, r := range net.Snapshot() {
+			o.subs = append(o.subs, r.Service+"\x00"+r.Query+"\x00"+canonical(r.Variables))
+		}
+		sort.Strings(o.subs)
+		return o, nil
 	}
 	dec, err := gwx.Decode(resp.Body)
 	if err != nil {
@@ -115,7 +143,13 @@ func checkC13(c *RepeatCase) *ev.Failure {
 		if err != nil {
 			return ev.Failf("harness", "world does not merge: %v", err)
 		}
-		post := func(r gwx.GQLRequest) *gwx.Response { return gwx.PostOp(gw, r, 10*time.Second) }
+		post := func(r gwx.GQLRequest) *gwx.Response {
+			if len(c.Batch) > 0 {
+				b, _ := json.Marshal(c.Batch)
+				return gwx.Post(gw, b, "application/json", 10*time.Second)
+			}
+			return gwx.PostOp(gw, r, 10*time.Second)
+		}
 		n := 1
 		if g == 0 {
 			n = maxInt(c.Repeats, 1)
@@ -174,6 +208,20 @@ func TestC13(t *testing.T) {
 		}
 		c := &RepeatCase{ExecCase: *base, Repeats: rapid.IntRange(lo, hi).Draw(t, "repeats"), Fresh: rapid.IntRange(2, 3).Draw(t, "fresh"),
 			GoMaxProcs: rapid.SampledFrom([]int{1, 4, 16}).Draw(t, "gomaxprocs")}
+		if rapid.IntRange(0, 3).Draw(t, "batchmode") == 0 {
+			me := gwx.GQLRequest{Query: c.Op.Query, Variables: c.Op.Variables, OperationName: c.Op.OperationName}
+			extras := []gwx.GQLRequest{
+				{Query: "query A { __typename } query B { __typename }"},                              // ambiguous: no operationName
+				{Query: "{ __schema { queryType { name } } }"},                                        // introspection
+				{Query: "query A { __schema { queryType { name } } }", OperationName: strPtr("Nope")}, // unknown operationName
+				{Query: "{ nopeField }"}, // invalid
+				me,
+			}
+			c.Batch = []gwx.GQLRequest{me}
+			for k := rapid.IntRange(1, 3).Draw(t, "nextra"); k > 0; k-- {
+				c.Batch = append(c.Batch, extras[rapid.IntRange(0, len(extras)-1).Draw(t, "extra")])
+			}
+		}
 		for i := 0; i < c.Repeats+c.Fresh; i++ {
 			d := make([]int, m.NServices)
 			for j := range d {
@@ -186,6 +234,9 @@ func TestC13(t *testing.T) {
 		ev.Current("C13", c)
 		f := checkC13(c)
 		labels := []string{fmt.Sprintf("gomaxprocs=%d", c.GoMaxProcs)}
+		if len(c.Batch) > 0 {
+			labels = append(labels, "batch")
+		}
 		if intro {
 			labels = append(labels, "introspection")
 		}
